@@ -112,6 +112,7 @@ structure PendOk (d : RState) : Prop where
     | .cls i => (∃ n, p.tag = .c n ∧ n ≤ d.nasync) ∧ isLive d.st i = true
   minted : ∀ p ∈ d.pend, ∀ i, sidOf p = some i → i < d.st.next
   sids : ∀ p ∈ d.pend, (sidOf p).isSome = true    -- (stateful endpoint: every request belongs to a session)
+  relLe : ∀ k ∈ d.released, k ≤ d.nslow
 
 /-! ### the simulation relation -/
 
